@@ -14,6 +14,23 @@ MUT_AOR = ("        try:\n"
            "        except IndexError:\n"
            "            self.add_lease(available_space, lease_info)\n")
 
+IMM_AOR = ("        try:\n"
+           "            self.renew_lease(lease_info.renew_secret,\n"
+           "                             lease_info.get_expiration_time())\n"
+           "        except IndexError:\n"
+           "            if lease_info.immutable_size() > available_space:\n"
+           "                raise NoSpace()\n"
+           "            self.add_lease(lease_info)\n")
+
+ENUM = ("    def _enumerate_leases(self, f):\n"
+        "        for i in range(self._get_num_lease_slots(f)):\n"
+        "            try:\n"
+        "                data = self._read_lease_record(f, i)\n"
+        "                if data is not None:\n"
+        "                    yield i,data\n"
+        "            except IndexError:\n"
+        "                return\n")
+
 MUTANTS = [
     # ---- C25.1 renew, else add
     M("add-even-when-renewed", MUT, MUT_AOR,
@@ -93,6 +110,47 @@ MUTANTS = [
       "        offset = self._lease_offset + (lease_number + 1) * self.LEASE_SIZE\n", "C25.6"),
     M("immutable-count-skips-one", IMM, "struct.pack(self._lease_count_format, num_leases + 1)", "struct.pack(self._lease_count_format, num_leases + 2)", "C25.6"),
     M("slot-count-short", MUT, "        return 4+num_extra_leases", "        return 3+num_extra_leases", "C25.6"),
+    # ---- C25.7 a renewal is never refused / skipped for lack of space
+    M("space-check-before-renew-immutable", IMM, IMM_AOR,
+      "        if lease_info.immutable_size() > available_space:\n            raise NoSpace()\n"
+      "        try:\n            self.renew_lease(lease_info.renew_secret,\n                             lease_info.get_expiration_time())\n"
+      "        except IndexError:\n            self.add_lease(lease_info)\n", "C25.7"),
+    M("space-check-before-renew-mutable", MUT, MUT_AOR,
+      "        if lease_info.mutable_size() > available_space:\n            raise NoSpace()\n" + MUT_AOR, "C25.7"),
+    M("full-server-returns-early", IMM, IMM_AOR, "        if available_space <= 0:\n            return\n" + IMM_AOR, "C25.7"),
+    M("precondition-on-space", MUT, "    def add_or_renew_lease(self, available_space, lease_info):\n        precondition(lease_info.owner_num != 0) # 0 means \"no lease here\"\n",
+      "    def add_or_renew_lease(self, available_space, lease_info):\n        precondition(lease_info.owner_num != 0 and available_space > 0)\n", "C25.7"),
+    M("server-skips-shares-when-full", SRV, "            share.add_or_renew_lease(self.get_available_space(), lease_info)",
+      "            space = self.get_available_space()\n            if space is not None and space <= 0:\n                continue\n"
+      "            share.add_or_renew_lease(space, lease_info)", "C25.7"),
+    M("readonly-server-does-not-renew", SRV, "        if renew_leases:\n            self._add_or_renew_leases(alreadygot.values(), lease_info)",
+      "        if renew_leases and not self.readonly_storage:\n            self._add_or_renew_leases(alreadygot.values(), lease_info)", "C25.7"),
+    M("add-lease-only-with-space", SRV, "        self._add_or_renew_leases(\n            self._iter_share_files(storage_index),\n            lease_info,\n        )",
+      "        if self.get_available_space() != 0:\n            self._add_or_renew_leases(\n                self._iter_share_files(storage_index),\n                lease_info,\n            )", "C25.7"),
+    # ---- C25.8 enumeration index = slot number
+    M("enumerate-live-leases", MUT, ENUM,
+      "    def _enumerate_leases(self, f):\n        leases = []\n        for i in range(self._get_num_lease_slots(f)):\n            try:\n"
+      "                data = self._read_lease_record(f, i)\n            except IndexError:\n                break\n"
+      "            if data is not None:\n                leases.append(data)\n        return enumerate(leases)\n", "C25.8"),
+    M("dense-counter-index", MUT, ENUM,
+      "    def _enumerate_leases(self, f):\n        n = 0\n        for i in range(self._get_num_lease_slots(f)):\n            try:\n"
+      "                data = self._read_lease_record(f, i)\n                if data is not None:\n                    yield n,data\n"
+      "                    n += 1\n            except IndexError:\n                return\n", "C25.8"),
+    M("collected-with-list-position", MUT, ENUM,
+      "    def _enumerate_leases(self, f):\n        leases = []\n        for i in range(self._get_num_lease_slots(f)):\n            try:\n"
+      "                data = self._read_lease_record(f, i)\n            except IndexError:\n                break\n"
+      "            if data is not None:\n                leases.append((len(leases), data))\n        return leases\n", "C25.8"),
+    M("extra-slots-only", MUT, "    def _enumerate_leases(self, f):\n        for i in range(self._get_num_lease_slots(f)):",
+      "    def _enumerate_leases(self, f):\n        for i in range(self._read_num_extra_leases(f)):", "C25.8"),
+    M("enumeration-hides-expired", MUT, "                if data is not None:\n                    yield i,data\n",
+      "                if data is not None and data.get_expiration_time() > 0:\n                    yield i,data\n", "C25.8"),
+    M("immutable-get-leases-filters", IMM, "                if data:\n                    yield self._schema.lease_serializer.unserialize(data)\n",
+      "                if data:\n                    lease = self._schema.lease_serializer.unserialize(data)\n"
+      "                    if lease.owner_num:\n                        yield lease\n", "C25.8"),
+    M("cancel-blanks-wrong-slot", MUT, "                    self._write_lease_record(f, leasenum, blank_lease)\n",
+      "                    self._write_lease_record(f, modified, blank_lease)\n", "C25.8"),
+    M("cancel-blanks-unmatched", MUT, "                if lease.is_cancel_secret(cancel_secret):\n                    self._write_lease_record(f, leasenum, blank_lease)\n",
+      "                if lease.is_cancel_secret(cancel_secret) or lease.is_renew_secret(cancel_secret):\n                    self._write_lease_record(f, leasenum, blank_lease)\n", "C25.8"),
     # ---- behaviour-preserving
     M("benign-guard-flipped", IMM, "                if allow_backdate or new_expire_time > lease.get_expiration_time():",
       "                if allow_backdate or lease.get_expiration_time() < new_expire_time:", None),
@@ -109,6 +167,30 @@ MUTANTS = [
     M("benign-not-clear-test", LSCH, "        if isinstance(lease, LeaseInfo):\n            # v2 of the immutable schema",
       "        if not (not isinstance(lease, LeaseInfo)):\n            # v2 of the immutable schema", None),
     M("benign-extra-slot-test-rearranged", MUT, "        if lease_number < 4:\n            offset = self.HEADER_SIZE + lease_number * self.LEASE_SIZE\n        elif (lease_number-4) < num_extra_leases:\n            offset = (extra_lease_offset\n                      + 4\n                      + (lease_number-4)*self.LEASE_SIZE)\n        else:\n            # must add", "        if lease_number < 4:\n            offset = self.HEADER_SIZE + lease_number * self.LEASE_SIZE\n        elif lease_number < num_extra_leases + 4:\n            offset = (extra_lease_offset\n                      + 4\n                      + (lease_number-4)*self.LEASE_SIZE)\n        else:\n            # must add", None),
+    M("benign-space-check-after-else", IMM, IMM_AOR,
+      "        try:\n            self.renew_lease(lease_info.renew_secret,\n                             lease_info.get_expiration_time())\n"
+      "        except IndexError:\n            pass\n        else:\n            return\n"
+      "        if lease_info.immutable_size() > available_space:\n            raise NoSpace()\n        self.add_lease(lease_info)\n", None),
+    M("benign-size-hoisted", IMM, IMM_AOR, "        needed = lease_info.immutable_size()\n" + IMM_AOR.replace(
+        "if lease_info.immutable_size() > available_space", "if needed > available_space"), None),
+    M("benign-no-shares-no-call", SRV, "        if renew_leases:\n            self._add_or_renew_leases(alreadygot.values(), lease_info)",
+      "        if renew_leases and alreadygot:\n            self._add_or_renew_leases(alreadygot.values(), lease_info)", None),
+    M("benign-server-space-hoisted", SRV, "            share.add_or_renew_lease(self.get_available_space(), lease_info)",
+      "            space = self.get_available_space()\n            share.add_or_renew_lease(space, lease_info)", None),
+    M("benign-enumerate-up-front", MUT, ENUM,
+      "    def _enumerate_leases(self, f):\n        found = []\n        for slot in range(self._get_num_lease_slots(f)):\n            try:\n"
+      "                lease = self._read_lease_record(f, slot)\n            except IndexError:\n                break\n"
+      "            if lease is not None:\n                found.append((slot, lease))\n        return iter(found)\n", None),
+    M("benign-enumerate-continue", MUT, ENUM,
+      "    def _enumerate_leases(self, f):\n        nslots = self._get_num_lease_slots(f)\n        for i in range(nslots):\n            try:\n"
+      "                data = self._read_lease_record(f, i)\n            except IndexError:\n                return\n"
+      "            if data is None:\n                continue\n            yield (i, data)\n", None),
+    M("benign-get-leases-continue", IMM, "                if data:\n                    yield self._schema.lease_serializer.unserialize(data)\n",
+      "                if not data:\n                    continue\n                yield self._schema.lease_serializer.unserialize(data)\n", None),
+    M("benign-cancel-slot-renamed", MUT, "            for (leasenum,lease) in self._enumerate_leases(f):\n                accepting_nodeids.add(lease.nodeid)\n"
+      "                if lease.is_cancel_secret(cancel_secret):\n                    self._write_lease_record(f, leasenum, blank_lease)\n",
+      "            for (slot,lease) in self._enumerate_leases(f):\n                accepting_nodeids.add(lease.nodeid)\n"
+      "                matched = lease.is_cancel_secret(cancel_secret)\n                if matched:\n                    self._write_lease_record(f, slot, blank_lease)\n", None),
     # ---- vanished anchor
     M("vanish-add-or-renew", MUT, "    def add_or_renew_lease(self, available_space, lease_info):",
       "    def add_or_renew_leaseX(self, available_space, lease_info):", "ANALYSIS-ERROR"),
